@@ -128,8 +128,10 @@ def canon(v):
     return repr(type(v).__name__)
 
 
-def run_case(case: dict, scratch: Path, keep_exc: bool = False) -> dict:
-    """Run the case on the implementation.  Returns {"out": [...], "jobs": {node: n}} or {"error": ExcName, "phase": ...}."""
+def run_case(case: dict, scratch: Path, keep_exc: bool = False, rerun: bool = False) -> dict:
+    """Run the case on the implementation.  Returns {"out": [...], "jobs": {node: n}} or {"error": ExcName, "phase": ...}.
+    With `rerun`, a successful run is followed by a second `Submitter` call on the same task object (same constructed
+    workflow, same node and `State` objects, fresh cache root); its observation is returned under "rerun"."""
     from pydra.engine.submitter import Submitter
     from pydra.engine.workflow import Workflow
     from harness import core
@@ -159,7 +161,24 @@ def run_case(case: dict, scratch: Path, keep_exc: bool = False) -> dict:
             return {"error": "Errored", "phase": "run"}
         outs = [canon(getattr(res.outputs, f"o{i}")) for i in range(len(case["out"]))]
         jobs, jobins = count_jobs(cache_root, case)
-        return {"out": outs, "jobs": jobs, "jobins": jobins}
+        first = {"out": outs, "jobs": jobs, "jobins": jobins}
+        if rerun:
+            cache2 = Path(tempfile.mkdtemp(prefix=f"cache_{uid}_again_", dir=scratch))
+            try:
+                with Submitter(worker="debug", cache_root=cache2) as sub:
+                    res2 = sub(wf, raise_errors=True)
+                if res2.errored:
+                    first["rerun"] = {"error": "Errored"}
+                else:
+                    j2, ji2 = count_jobs(cache2, case)
+                    first["rerun"] = {
+                        "out": [canon(getattr(res2.outputs, f"o{i}")) for i in range(len(case["out"]))],
+                        "jobs": j2,
+                        "jobins": ji2,
+                    }
+            except Exception as e2:  # noqa: BLE001
+                first["rerun"] = {"error": core.exc_tag(e2)}
+        return first
     except Exception as e:  # noqa: BLE001  (every exception is an observable here)
         root = e  # the Submitter re-raises the original exception (with a note), no wrapping
         r = {"error": core.exc_tag(root), "phase": phase}
